@@ -873,7 +873,7 @@ def make_worker(deadline, timeouts):
         with ticker():
             st = state()
             for it in items:
-                if time.time() > deadline:
+                if time.monotonic() > deadline:
                     acc['items_skipped'] += 1
                     continue
                 kind = it[0]
@@ -964,7 +964,7 @@ def skeleton_representatives(lines, max_tokens):
 
 def run(cfg):
     rep = runner.Report('C12', 'exploration')
-    t0 = time.time()
+    t0 = time.monotonic()
     deadline = t0 + cfg.pick(300, 560)        # safety net; items not started by then are reported, exhaustive = false
     timeouts = multiprocessing.get_context('fork').RawValue('i', 0)
     work = make_worker(deadline, timeouts)
@@ -973,12 +973,15 @@ def run(cfg):
 
     def phase(name, items, chunk=None):
         before = dict((k, tot.t[k]) for k in ('cases', 'items_done', 'items_skipped', 'cases_aborted', 'nviol'))
-        tp = time.time()
-        for part in runner.pmap(work, items, cfg, chunk=chunk, deadline_s=1500):
-            tot.add(part)
+        tp = time.monotonic()
+        if tp > deadline:
+            tot.t['items_skipped'] += len(items)
+        else:
+            for part in runner.pmap(work, items, cfg, chunk=chunk, deadline_s=1500):
+                tot.add(part)
         phases[name] = dict((k, tot.t[k] - v) for k, v in before.items())
         phases[name]['items'] = len(items)
-        phases[name]['wall_s'] = round(time.time() - tp, 1)
+        phases[name]['wall_s'] = round(time.monotonic() - tp, 1)
 
     # (a) token strings
     L = cfg.pick(2, 3)
@@ -992,7 +995,7 @@ def run(cfg):
     lines = hand if cfg.quick else hand + gen
     order = sorted(range(len(lines)), key=lambda i: -len(lines[i]))          # long lines first: better balance
     phase('b:single-edits', [('single', i, lines[i]) for i in order], chunk=cfg.pick(4, 16))
-    reps, double_groups = [], []
+    reps = []
     if not cfg.quick:
         reps = skeleton_representatives(lines, DOUBLE_MAX_TOKENS)
         for lo, hi in ((0, 6), (7, 8), (9, 10), (11, 12), (13, 14), (15, 16)):
@@ -1001,9 +1004,10 @@ def run(cfg):
             items = [('double', i, r, p, parts) for i, r in grp for p in range(parts)]
             if items:
                 phase('b:double-edits-%d-%d-tokens' % (lo, hi), items, chunk=1)
-                double_groups.append(('%d-%d' % (lo, hi), phases['b:double-edits-%d-%d-tokens' % (lo, hi)]))
     tot.flush()
     T = tot.t
+    if T['cases'] == 0:
+        raise runner.HarnessError('no case was run (time budget exhausted before the first phase)')
     rep.extend_violations(T['viol'])
 
     capped = T['items_skipped'] > 0 or T['cases_aborted'] > 0
